@@ -111,9 +111,10 @@ def main():
     for ck in checks:
         shutil.rmtree(os.path.join(WT, ".verif-alt", "replays"), ignore_errors=True)
         rc, out = sh(f"./check {ck} quick", cwd=VERIF, env={"VERIF_REPO": WT}, timeout=7200)
-        viol = re.findall(r"^VIOLATION property=(\S+) replay=(\S+)\s+class=(\S+)", out, re.M)
-        results[ck] = {"rc": rc, "violations": [v[2] for v in viol][:8]}
-        print(f"[check {ck}] rc={rc} violations={[v[2] for v in viol][:5]}")
+        viol = re.findall(r"^VIOLATION property=(\S+) replay=(\S+)", out, re.M)
+        classes = re.findall(r"^violation-class: property=\S+ class=(\S+)", out, re.M)
+        results[ck] = {"rc": rc, "violations": classes[:8], "violation_lines": len(viol)}
+        print(f"[check {ck}] rc={rc} violations={classes[:5]}")
         if rc == 2:
             print(out[-2500:])
     # 4. keep
